@@ -64,7 +64,7 @@ RecShape(s) == CASE s = "x" -> << <<"x", FALSE, "n:x">> >>
 
 \* ---- canonical syntax ---------------------------------------------------------------------
 \* literals that start with the unary minus: `-1[]` would parse as -(1[]), so they rank below a primary
-NegLits == {"-1"}
+NegLits == {"-1", "-2", "-2147483649", "-9223372036854775807"}
 Level(t) == CASE Kind(t) \in {"fun", "fun0"} -> 0
               [] Kind(t) = "opt" -> 1
               [] Kind(t) = "union" -> 2
@@ -113,22 +113,115 @@ KidKinds(ts) == IF Len(ts) = 0 THEN "" ELSE IF Len(ts) = 1 THEN Kind(ts[1])
                 ELSE Kind(ts[1]) \o "," \o KidKinds(Tail(ts))
 Skel(t) == IF Kids(t) = <<>> THEN Kind(t) ELSE Kind(t) \o "(" \o KidKinds(Kids(t)) \o ")"
 
-\* ---- literals: id -> <<annotation text, normal form, widened base type>>
-LitTab(n) == CASE n = "true" -> <<"true", "b:true", "boolean">>
-               [] n = "false" -> <<"false", "b:false", "boolean">>
-               [] n = "1" -> <<"1", "i:1", "integer">>
-               [] n = "2" -> <<"2", "i:2", "integer">>
-               [] n = "-1" -> <<"-1", "i:-1", "integer">>
-               [] n = "s" -> <<"'s'", "s:s", "string">>
-               [] n = "t" -> <<"'t'", "s:t", "string">>
-               [] n = "sp" -> <<"'a b'", "s:a b", "string">>
-               [] n = "dq" -> <<"'a\"b'", "s:a\"b", "string">>
-               [] n = "bs" -> <<"'a\\\\b'", "s:a\\b", "string">>
-LitIds == {"true", "false", "1", "2", "-1", "s", "t", "sp", "dq", "bs"}
+\* ---- literals ---------------------------------------------------------------------------------
+\* CHARACTERS of string literals: id -> <<text of the character inside a single-quoted annotation literal
+\* (the escapes of the Lua string grammar that the annotation lexer shares), code point>>.  The value of a
+\* string literal is its sequence of code points; the normal form spells it "s:c1,c2,..", so that control
+\* and non-ASCII characters travel through TLC, JSON and the harness unambiguously.
+ChTab(ch) == CASE ch = "a" -> <<"a", 97>>
+               [] ch = "b" -> <<"b", 98>>
+               [] ch = "n" -> <<"n", 110>>
+               [] ch = "s" -> <<"s", 115>>
+               [] ch = "t" -> <<"t", 116>>
+               [] ch = "1" -> <<"1", 49>>              \* a decimal digit
+               [] ch = "2" -> <<"2", 50>>
+               [] ch = "F" -> <<"F", 70>>              \* a hexadecimal digit that is not a decimal digit
+               [] ch = "sp" -> <<" ", 32>>
+               [] ch = "dq" -> <<"\"", 34>>            \* a double quote needs no escape between single quotes
+               [] ch = "sq" -> <<"\\'", 39>>
+               [] ch = "bs" -> <<"\\\\", 92>>
+               [] ch = "nl" -> <<"\\n", 10>>
+               [] ch = "cr" -> <<"\\r", 13>>
+               [] ch = "tab" -> <<"\\t", 9>>
+               [] ch = "nul" -> <<"\\x00", 0>>
+               [] ch = "soh" -> <<"\\x01", 1>>
+               [] ch = "bel" -> <<"\\a", 7>>
+               [] ch = "esc" -> <<"\\x1B", 27>>
+               [] ch = "us" -> <<"\\x1F", 31>>
+               [] ch = "del" -> <<"\\x7F", 127>>
+               [] ch = "nel" -> <<"\\u{85}", 133>>     \* C1 control character
+               [] ch = "eacute" -> <<"\\u{E9}", 233>>
+               [] ch = "cjk" -> <<"\\u{65E5}", 26085>>
+               [] ch = "astral" -> <<"\\u{1F600}", 128512>>
+\* string literals: id -> sequence of characters
+StrTab(n) == CASE n = "s" -> <<"s">>
+               [] n = "t" -> <<"t">>
+               [] n = "sp" -> <<"a", "sp", "b">>
+               [] n = "dq" -> <<"a", "dq", "b">>
+               [] n = "bs" -> <<"a", "bs", "b">>
+               [] n = "empty" -> <<>>
+               [] n = "digit" -> <<"1">>                   \* the string '1', not the integer 1
+               [] n = "sq" -> <<"a", "sq", "b">>
+               [] n = "bsn" -> <<"bs", "n">>               \* backslash followed by the letter n (not a newline)
+               [] n = "bsdq" -> <<"bs", "dq">>             \* backslash followed by a quote
+               [] n = "nl" -> <<"a", "nl", "b">>
+               [] n = "cr" -> <<"cr", "nl">>
+               [] n = "tab" -> <<"tab", "a">>
+               [] n = "ctl" -> <<"a", "soh", "b">>         \* control character followed by a (hex digit) letter
+               [] n = "ctld" -> <<"soh", "2">>             \* control character followed by a decimal digit
+               [] n = "ctlF" -> <<"us", "F">>              \* control character followed by a hex-only digit
+               [] n = "ctldd" -> <<"soh", "2", "1">>
+               [] n = "nul" -> <<"nul">>
+               [] n = "nuld" -> <<"a", "nul", "1">>
+               [] n = "bel" -> <<"bel">>
+               [] n = "esc" -> <<"esc", "a">>
+               [] n = "escd" -> <<"esc", "2">>             \* escape character followed by a decimal digit
+               [] n = "del" -> <<"del", "1">>
+               [] n = "nel" -> <<"nel", "1">>
+               [] n = "u8" -> <<"eacute">>
+               [] n = "u8d" -> <<"a", "eacute", "1">>
+               [] n = "cjk" -> <<"cjk", "a">>
+               [] n = "astral" -> <<"astral">>
+StrIds == {"s", "t", "sp", "dq", "bs", "empty", "digit", "sq", "bsn", "bsdq", "nl", "cr", "tab", "ctl", "ctld", "ctlF",
+           "ctldd", "nul", "nuld", "bel", "esc", "escd", "del", "nel", "u8", "u8d", "cjk", "astral"}
+\* integer literals: id -> <<annotation text, decimal value>>
+IntTab(n) == CASE n = "0" -> <<"0", "0">>
+               [] n = "1" -> <<"1", "1">>
+               [] n = "2" -> <<"2", "2">>
+               [] n = "-1" -> <<"-1", "-1">>
+               [] n = "-2" -> <<"-2", "-2">>
+               [] n = "hex" -> <<"0x10", "16">>
+               [] n = "i32" -> <<"2147483648", "2147483648">>
+               [] n = "-i32" -> <<"-2147483649", "-2147483649">>
+               [] n = "f53" -> <<"9007199254740993", "9007199254740993">>      \* 2^53 + 1: not a double
+               [] n = "max" -> <<"9223372036854775807", "9223372036854775807">>
+               [] n = "-max" -> <<"-9223372036854775807", "-9223372036854775807">>
+IntIds == {"0", "1", "2", "-1", "-2", "hex", "i32", "-i32", "f53", "max", "-max"}
+BoolIds == {"true", "false"}
+
+RECURSIVE SrcJoin(_), CpJoin(_)
+SrcJoin(cs) == IF cs = <<>> THEN "" ELSE ChTab(Head(cs))[1] \o SrcJoin(Tail(cs))
+CpJoin(cs) == IF cs = <<>> THEN "" ELSE ToString(ChTab(Head(cs))[2]) \o (IF Len(cs) > 1 THEN "," ELSE "") \o CpJoin(Tail(cs))
+\* id -> <<annotation text, normal form, widened base type>>
+LitTab(n) == IF n \in BoolIds THEN <<n, "b:" \o n, "boolean">>
+             ELSE IF n \in IntIds THEN <<IntTab(n)[1], "i:" \o IntTab(n)[2], "integer">>
+             ELSE <<"'" \o SrcJoin(StrTab(n)) \o "'", "s:" \o CpJoin(StrTab(n)), "string">>
+LitIds == BoolIds \cup IntIds \cup StrIds
 LitOf(text) == LitTab(CHOOSE n \in LitIds : LitTab(n)[1] = text)
 LitNorm(text) == LitOf(text)[2]
 LitBase(text) == LitOf(text)[3]
 LitById(n) == Lit(LitTab(n)[1])
+LitId(text) == CHOOSE n \in LitIds : LitTab(n)[1] = text
+\* the annotation texts are pairwise different (LitOf is well defined)
+ASSUME \A m, n \in LitIds : m # n => LitTab(m)[1] # LitTab(n)[1]
+
+\* mechanism class of a literal (finding signatures): what its rendering has to get right
+Ctl == {"nul", "soh", "bel", "esc", "us", "del", "nel"}
+Digits == {"1", "2"}
+StrFeat(cs) ==
+  (IF \E i \in 1..Len(cs) : cs[i] = "dq" THEN {"string-literal-with-quote"} ELSE {}) \cup
+  (IF \E i \in 1..Len(cs) : cs[i] = "bs" THEN {"string-literal-with-backslash"} ELSE {}) \cup
+  (IF \E i \in 1..Len(cs) : cs[i] \in {"nl", "cr", "tab"} THEN {"string-literal-with-newline-or-tab"} ELSE {}) \cup
+  (IF \E i \in 1..Len(cs) - 1 : cs[i] \in Ctl /\ cs[i + 1] \in Digits
+   THEN {"string-literal-with-control-character-before-digit"} ELSE {}) \cup
+  (IF \E i \in 1..Len(cs) : cs[i] \in Ctl /\ ~(i < Len(cs) /\ cs[i + 1] \in Digits)
+   THEN {"string-literal-with-control-character"} ELSE {}) \cup
+  (IF \E i \in 1..Len(cs) : cs[i] \in {"eacute", "cjk", "astral"} THEN {"string-literal-non-ascii"} ELSE {}) \cup
+  (IF cs = <<>> THEN {"string-literal-empty"} ELSE {})
+LitFeat(text) == LET n == LitId(text) IN
+                 IF n \in StrIds THEN StrFeat(StrTab(n))
+                 ELSE IF n \in {"i32", "-i32", "f53", "max", "-max"} THEN {"integer-literal-large"}
+                 ELSE {}
 
 \* ---- normal form (what a term denotes, independent of how it is written): uniform records [k, n, m, keys];
 \*      optionals are unions with nil, union members are a set (the comparison ignores their order),
